@@ -469,7 +469,7 @@ class Analyzer:
                 ce1.tables[name] = ({}, _Fr(29, 4), rng)
         wd = self.scratch("replay")
         try:
-            res = compile_and_run(enc.pkg, enc.dm, [ce, ce0, ce, ce, ce1, ce], dict(enc.event.strings), wd)
+            res = compile_and_run(enc.pkg, enc.dm, [ce1, ce, ce0, ce, ce, ce1, ce], dict(enc.event.strings), wd)
         except ReplayUnsupported as e:
             r.inconclusive.append((v.name, f"cannot replay: {e}"))
             v.status = "inconclusive"
@@ -481,9 +481,13 @@ class Analyzer:
             return
         evs = res["outcome"]["events"]
         rows = [e["rows"] for e in evs]
-        # a faulting event ends the job: only the events actually processed are compared (positions 0, 2, 3, 5 are E)
-        same_e = [rows[i] for i in (0, 2, 3, 5) if i < len(evs)]
-        differs = len(same_e) >= 2 and any(x != same_e[0] for x in same_e[1:])
+        # a faulting event ends the job: only the events actually processed are compared (positions 1, 3, 4, 6 are E; 0 and 5 are E1,
+        # the full event - what an event that writes nothing leaves behind shows in the rows of the NEXT event that does write)
+        same_e = [rows[i] for i in (1, 3, 4, 6) if i < len(evs)]
+        same_e1 = [rows[i] for i in (0, 5) if i < len(evs)]
+        differs = (len(same_e) >= 2 and any(x != same_e[0] for x in same_e[1:])) or (len(same_e1) == 2 and same_e1[0] != same_e1[1])
+        if len(same_e1) == 2 and same_e1[0] != same_e1[1] and not (len(same_e) >= 2 and any(x != same_e[0] for x in same_e[1:])):
+            same_e = same_e1
         if differs:
             d = bundle_dir(self.prop, prog, v.name)
             text = f"rows for the same event differ with history: first={rows[0]} after other events={same_e[1:]}"
@@ -494,7 +498,7 @@ class Analyzer:
             v.detail = text
         else:
             v.status = "spurious"
-            v.detail = "pre-state of the inductive step not reproduced by the concrete history [E, E0, E, E, E1, E]"
+            v.detail = "pre-state of the inductive step not reproduced by the concrete history [E1, E, E0, E, E, E1, E]"
             r.spurious.append((v.name, v.detail))
             r.inconclusive.append((v.name, v.detail + " (the invariant may be too weak for this program)"))
         shutil.rmtree(wd, ignore_errors=True)
